@@ -25,11 +25,15 @@ const END: u8 = 0x40;
 /// A log as the driver hands it over: arbitrary earlier frames below the tail, ZERO from the tail on (so that
 /// "0, negative, or positive-and-complete" is a meaningful statement about the claimed range).
 fn log_zero_beyond(tail: i32) -> Log {
+    log_zero_beyond_in_term(tail, kani::any())
+}
+
+fn log_zero_beyond_in_term(tail: i32, term_id: i32) -> Log {
     let below: [u8; T] = kani::any();
     let mut content = [0u8; T];
     let t = tail as usize;
     content[..t].copy_from_slice(&below[..t]);
-    let (session, stream, term_id): (i32, i32, i32) = (kani::any(), kani::any(), kani::any());
+    let (session, stream): (i32, i32) = (kani::any(), kani::any());
     let mut l = Log { term: Mem(content), before: content, meta: Mem::zeroed(), hdr: Mem::zeroed(), term_id, session, stream };
     l.hdr.buf().put::<i32>(12, session);
     l.hdr.buf().put::<i32>(16, stream);
@@ -554,54 +558,69 @@ fn slot_sound(l: &Log, off: usize, len: i32, src: *const u8) -> bool {
 
 static mut SRC_A_PTR: *const u8 = 0x4305 as *const u8;
 
-fn publisher_b() {
+/// Publisher B's complete append; A_OFF / B_OFF = where the protocol places the two frames for this schedule (the
+/// order of the two tail fetch-adds decides the layout, so each layout is a literal instance).
+fn publisher_b<const A_OFF: usize, const B_OFF: usize>() {
     unsafe {
         let l = &mut *PARTY.log;
         let hw = HeaderWriter::new(l.hdr.buf());
         let b = TermAppender::new(l.term.buf(), l.meta.buf(), 0);
         let r = b.append_unfragmented_message(&hw, &AtomicBuffer::new(PARTY.src_b, 32), 0, LEN_B, supplier, l.term_id);
         let end = vok!(r, "C03: B's append with the matching term id returns a result");
-        let b_off = end - 64;
-        assert!(b_off == TAIL_AB || b_off == TAIL_AB + 96, "C03: B's frame lies directly at the tail or directly behind A's claimed range");
-        PARTY.b_off = b_off;
+        assert!(end == B_OFF as i32 + 64, "C03: B's frame lies directly at the tail or directly behind A's claimed range (disjoint ranges)");
+        PARTY.b_off = end - 64;
         PARTY.ran += 1;
         // the moment B has returned (A is still somewhere inside its append): a reader must not be misled
-        let a_off = if b_off == TAIL_AB { TAIL_AB + 64 } else { TAIL_AB };
-        assert!(rd_i32(&l.term.0, b_off as usize) == 32 + LEN_B && slot_sound(l, b_off as usize, LEN_B, PARTY.src_b), "C03: B's frame is complete when B returns, whatever A has done so far");
-        assert!(slot_sound(l, a_off as usize, LEN_A, SRC_A_PTR), "C03: while A is preempted its slot shows 0 or -length, or +length with header and payload final");
+        assert!(rd_i32(&l.term.0, B_OFF) == 32 + LEN_B && slot_sound(l, B_OFF, LEN_B, PARTY.src_b), "C03: B's frame is complete when B returns, whatever A has done so far");
+        assert!(slot_sound(l, A_OFF, LEN_A, SRC_A_PTR), "C03: while A is preempted its slot shows 0 or -length, or +length with header and payload final");
     }
 }
 
-// @verif tier=quick unwind=5
-#[kani::proof]
-fn c03_interference_complete_append_of_b_inside_a() {
-    pretouch();
-    let mut l = log_zero_beyond(TAIL_AB);
-    let mut src_a: [u8; 96] = kani::any();
-    let mut src_b: [u8; 32] = kani::any();
-    let j: u32 = kani::any();
-    kani::assume(j <= 6); // A performs accesses 0..=5; j == 6: B never runs
-    unsafe {
-        PARTY.log = &mut l as *mut Log;
-        PARTY.src_b = src_b.as_mut_ptr();
-        PARTY.ran = 0;
-        SRC_A_PTR = src_a.as_ptr();
-    }
-    let n = run_op(&mut l, false, Op::Unfrag, TAIL_AB, &mut src_a, LEN_A, u32::MAX, j, Some(publisher_b as fn()), false);
-    assert!(n == 6, "C03: harness: A's unfragmented append performs 6 shared-memory accesses");
-    let (ran, b_off) = unsafe { (PARTY.ran, PARTY.b_off) };
-    assert!(ran == if j < 6 { 1 } else { 0 }, "C03: harness: B ran exactly once iff it was scheduled inside A");
-    if ran == 1 {
-        let a_off = if j == 0 { TAIL_AB + 64 } else { TAIL_AB };
-        assert!(b_off == if j == 0 { TAIL_AB } else { TAIL_AB + 96 }, "C03: frames are laid out in the order of the tail fetch-adds: disjoint ranges");
-        assert!(rd_i32(&l.term.0, a_off as usize) == 32 + LEN_A && slot_sound(&l, a_off as usize, LEN_A, src_a.as_ptr()), "C03: A's frame is complete and intact after both appends");
-        assert!(rd_i32(&l.term.0, b_off as usize) == 32 + LEN_B && slot_sound(&l, b_off as usize, LEN_B, src_b.as_ptr()), "C03: B's frame is complete and intact after A finished around it");
-        assert!(l.raw_tail() == pack_tail(l.term_id, TAIL_AB + 160), "C03: the tail covers both frames exactly");
-        assert!(l.unchanged_outside(TAIL_AB as usize, TAIL_AB as usize + 160), "C03: nothing outside the two claimed frames is written");
-        // padding bytes between B's frame end (52) and its aligned end (64) stay zero, as do A's (72..96)
-    }
-    kani::cover!(j == 0 && ran == 1, "[must] B entirely before A's tail fetch-add");
-    kani::cover!(j == 3 && ran == 1, "[must] B between A's header and A's payload copy");
-    kani::cover!(j == 5 && ran == 1, "[must] B just before A's commit");
-    kani::cover!(j == 6, "[must] A alone");
+macro_rules! interference {
+    ($name:ident, $term_id:expr, $j:expr, $jlo:expr, $jhi:expr, $a_off:expr, $b_off:expr) => {
+        #[kani::proof]
+        fn $name() {
+            pretouch();
+            const A_OFF: usize = $a_off;
+            const B_OFF: usize = $b_off;
+            let mut l = log_zero_beyond_in_term(TAIL_AB, $term_id);
+            let mut src_a: [u8; 96] = kani::any();
+            let mut src_b: [u8; 32] = kani::any();
+            let j: u32 = $j;
+            kani::assume($jlo <= j && j <= $jhi); // A performs accesses 0..=5; j == 6: B never runs inside A
+            unsafe {
+                PARTY.log = &mut l as *mut Log;
+                PARTY.src_b = src_b.as_mut_ptr();
+                PARTY.ran = 0;
+                SRC_A_PTR = src_a.as_ptr();
+            }
+            let n = run_op(&mut l, false, Op::Unfrag, TAIL_AB, &mut src_a, LEN_A, u32::MAX, j, Some(publisher_b::<A_OFF, B_OFF> as fn()), false);
+            assert!(n == 6, "C03: harness: A's unfragmented append performs 6 shared-memory accesses");
+            let (ran, b_off) = unsafe { (PARTY.ran, PARTY.b_off) };
+            assert!(ran == if j < 6 { 1 } else { 0 }, "C03: harness: B ran exactly once iff it was scheduled inside A");
+            assert!(rd_i32(&l.term.0, A_OFF) == 32 + LEN_A && slot_sound(&l, A_OFF, LEN_A, src_a.as_ptr()), "C03: A's frame is complete and intact after it finished around B's append");
+            if ran == 1 {
+                assert!(b_off == B_OFF as i32, "C03: frames are laid out in the order of the tail fetch-adds");
+                assert!(rd_i32(&l.term.0, B_OFF) == 32 + LEN_B && slot_sound(&l, B_OFF, LEN_B, src_b.as_ptr()), "C03: B's frame is still complete and intact after A finished");
+                assert!(l.raw_tail() == pack_tail(l.term_id, TAIL_AB + 160), "C03: the tail covers both frames exactly");
+                assert!(l.unchanged_outside(TAIL_AB as usize, TAIL_AB as usize + 160), "C03: nothing outside the two claimed frames is written");
+            } else {
+                assert!(l.unchanged_outside(A_OFF, A_OFF + 96), "C03: nothing outside A's frame is written");
+            }
+            kani::cover!(j == $jlo && ran == 1, "[must] B at the earliest point of this layout");
+            kani::cover!(j == 5 || $jhi < 5, "[must] B just before A's commit");
+            kani::cover!(j == 6 || $jhi < 6, "[must] A alone");
+        }
+    };
 }
+
+// B's fetch-add first: B at the tail, A behind it
+// @verif tier=quick unwind=3
+interference!(c03_interference_b_before_a_claims, kani::any(), 0, 0, 0, 96, 32);
+// A's fetch-add first (B injected before A's 1st..5th later access, or not at all): A at the tail, B behind A's range
+// (concrete term id: with a symbolic one CBMC cannot fold `raw_tail & 0xFFFF_FFFF` after B's fetch-add and the
+// instance costs 2.3 M variables instead of 1 M; the symbolic-term-id twin of this instance is in the thorough tier)
+// @verif tier=quick unwind=3
+interference!(c03_interference_b_inside_a, -7, kani::any(), 1, 6, 32, 128);
+// @verif tier=thorough unwind=3
+interference!(c03_interference_b_inside_a_any_term_id, kani::any(), kani::any(), 1, 6, 32, 128);
